@@ -62,6 +62,14 @@ class SymMode:
     def const(self, x):
         return SV.lift(x)
 
+    def is_true_or_none(self, x):
+        """Concrete truth of x; a symbolic x forks (used for data-dependent early termination in specs)."""
+        return bool(SB.lift(x))
+
+    def fork_selections(self, on=True):
+        """Comprehension / filter conditions on symbolic data fork from here on (concrete selections)."""
+        CTX.notes["fork_selections"] = on
+
     def generator(self):
         """The `generator` argument handed to a game generator: every draw a fresh symbol (support only)."""
         from . import rng
@@ -352,6 +360,12 @@ class NativeMode:
 
     def const(self, x):
         return float(x)
+
+    def is_true_or_none(self, x):
+        return bool(x)
+
+    def fork_selections(self, on=True):
+        pass
 
     def generator(self):
         import numpy as np
